@@ -24,7 +24,7 @@ SHARED = ["Expr/IO.vo", "Eval/TableProofs.vo", "Eval/LambdaModel.vo", "Eval/Eval
 PROOF_MODULES = []   # coq/C14/*.v are compiled directly with coqc (OWN_FILES, in dependency order) until listed in _CoqProject
 OWN_FILES = ["C14/LlvmTerm.v", "C14/Gen_LlvmRules.v", "C14/LlvmModel.v", "C14/LlvmRun.v", "C14/LlvmProofs.v", "C14/LlvmTable.v"]
 OBLIGATIONS = ["C14/P_compile_sound.v", "C14/P_flatten_correct.v", "C14/P_llvm_rules_agree_eval.v", "C14/P_llvm_accepts.v",
-               "C14/P_llvm_pow_ideal.v", "C14/P_init_stateless.v", "C14/P_nonvacuous.v"]
+               "C14/P_llvm_pow_ideal.v", "C14/P_init_stateless.v", "C14/P_cse_symbols_first.v", "C14/P_nonvacuous.v"]
 
 CORPUS = [
     "I 0 0 :: (s x) ;; (s y) :: (add (mul (i 2) (s x)) (s y)) ;; (pow (s x) (i 3)) || C 4024000000000000 3ff0000000000000",
